@@ -360,6 +360,8 @@ impl<'r> JEmitter<'r> {
                     nrows = big;
                 }
                 self.cfg.big = None;
+                self.cfg.exotic = false;
+                self.cfg.max_depth = self.cfg.max_depth.min(1);
             }
         }
         let mut cols: Vec<String> = Vec::new();
